@@ -40,7 +40,7 @@ def make_tree(typed, t=None):
 
 def snapshot_ops(tree, typed):
     """name -> callable returning a JSON-able snapshot of what the operation saw"""
-    other = (TypedTree if typed else Tree)("other")
+    other = (TypedTree if typed else Tree)(tree.name)      # the same NAME as the source: names identify nothing
 
     def names_of(t):
         return [n.name for n in t]
@@ -460,7 +460,7 @@ def snapshot_preemptions(typed, opname, max_points=45, seen_points=None):
         kw = {"kind": "k1"} if typed else {}
         for i in range(3):
             tree.add(("n", i), **kw).add(("c", i), **kw)
-        other = (TypedTree if typed else Tree)("other")
+        other = (TypedTree if typed else Tree)(tree.name)      # the same NAME as the source: names identify nothing
         seen = []
         state = {"paused": False}
         b_paused, b_go = threading.Event(), threading.Event()
